@@ -96,8 +96,11 @@ def followUpdateFollowers (actorIRI : Iri) (recipients : List Iri) : Prog Unit :
     let followers ← Op.followers actorIRI
     Op.update (setList followers "items" (mkIdList recipients.reverse ++ (rawList followers "items").getD [])))
 
+/-- builds, identifies and delivers the automatic Accept/Reject.  The response embeds the very same Follow
+value, and delivery preparation strips bto/bcc from a response's embedded objects *in place*: the Follow as it
+is afterwards is returned. -/
 def followRespond (F : TFacts) (cfg : CbConfig) (box : Iri) (a : J) (actorIRI : Iri)
-    (addNewIds : J → Prog J) (deliver : Iri → J → Prog Unit) : Prog Unit := do
+    (addNewIds : J → Prog J) (deliver : Iri → J → Prog J) : Prog J := do
   let ty ← followResponseType cfg
   let followActors ← needList "follow: followActors.Begin() on nil actor property" (prop F a "actor")
   let recipients ← idsM F followActors
@@ -105,15 +108,19 @@ def followRespond (F : TFacts) (cfg : CbConfig) (box : Iri) (a : J) (actorIRI : 
   (if cfg.onFollow == 1 then followUpdateFollowers actorIRI recipients else pure ())
   let outboxIRI ← Op.locked box (Op.outboxForInbox box)
   let response ← addNewIds (followResponse ty actorIRI a recipients)
-  deliver outboxIRI response
+  let delivered ← deliver outboxIRI response
+  pure (match rawList delivered "object" with
+    | some [x] => x
+    | _ => a)
 
 def fedFollow (F : TFacts) (cfg : CbConfig) (box : Iri) (a : J)
-    (addNewIds : J → Prog J) (deliver : Iri → J → Prog Unit) : Prog Unit := do
+    (addNewIds : J → Prog J) (deliver : Iri → J → Prog J) : Prog J := do
   let op ← requireObject F a
   let actorIRI ← Op.locked box (Op.actorForInbox box)
   let isMe ← followIsMe F cfg op actorIRI
-  (if isMe then followRespond F cfg box a actorIRI addNewIds deliver else pure ())
-  wrappedAfter true cfg "Follow" a
+  let a' ← (if isMe then followRespond F cfg box a actorIRI addNewIds deliver else pure a)
+  wrappedAfter true cfg "Follow" a'
+  pure a'
 
 /-- ids of a non-nil actor/object property of a (re-)read Follow, panicking where the code calls `.Begin()` on nil -/
 def needProp (F : TFacts) (site : String) (v : J) (p : String) : Prog (List J) :=
@@ -238,22 +245,23 @@ def fedBlock (F : TFacts) (cfg : CbConfig) (a : J) : Prog Unit := do
   let _ ← requireObject F a
   wrappedAfter true cfg "Block" a
 
-/-- the default federating callback for activity type `ty` -/
-def fedCb (F : TFacts) (addNewIds : J → Prog J) (deliver : Iri → J → Prog Unit)
-    (cfg : CbConfig) (box : Iri) (ty : String) (a : J) : Prog Unit :=
+/-- the default federating callback for activity type `ty`; returns the activity as it is afterwards
+(only the Follow response path touches it) -/
+def fedCb (F : TFacts) (addNewIds : J → Prog J) (deliver : Iri → J → Prog J)
+    (cfg : CbConfig) (box : Iri) (ty : String) (a : J) : Prog J :=
   match ty with
-  | "Create" => fedCreate F cfg box a
-  | "Update" => fedUpdate F cfg a
-  | "Delete" => fedDelete F cfg a
+  | "Create" => do fedCreate F cfg box a; pure a
+  | "Update" => do fedUpdate F cfg a; pure a
+  | "Delete" => do fedDelete F cfg a; pure a
   | "Follow" => fedFollow F cfg box a addNewIds deliver
-  | "Accept" => fedAccept F cfg box a
-  | "Reject" => wrappedAfter true cfg "Reject" a
-  | "Add" => fedAdd F true cfg a
-  | "Remove" => fedRemove F true cfg a
-  | "Like" => fedLike F cfg a
-  | "Announce" => fedAnnounce F cfg a
-  | "Undo" => fedUndo F true cfg box a
-  | "Block" => fedBlock F cfg a
+  | "Accept" => do fedAccept F cfg box a; pure a
+  | "Reject" => do wrappedAfter true cfg "Reject" a; pure a
+  | "Add" => do fedAdd F true cfg a; pure a
+  | "Remove" => do fedRemove F true cfg a; pure a
+  | "Like" => do fedLike F cfg a; pure a
+  | "Announce" => do fedAnnounce F cfg a; pure a
+  | "Undo" => do fedUndo F true cfg box a; pure a
+  | "Block" => do fedBlock F cfg a; pure a
   | _ => .fail .lib
 
 end AV.Pub
